@@ -173,17 +173,35 @@ def scan(repo="/repo"):
 
 
 def compare(tab, gold):
-    """Differences between the scanned table and the committed one (only the scanned attributes)."""
+    """Differences between the scanned table and the committed one (only the scanned attributes) that matter for C17:
+    a member that lost its initialiser or its place in Reset, a member that disappeared, a new member that is not
+    initialised or - in a class whose members Reset handles one by one - not reset.  A new member that IS initialised
+    and reset, and pure type changes, are returned by `benign` instead."""
+    return [d for d, bad in _diff(tab, gold) if bad]
+
+
+def benign(tab, gold):
+    return [d for d, bad in _diff(tab, gold) if not bad]
+
+
+def _diff(tab, gold):
     out = []
+    cls = lambda k: k.rsplit("::", 1)[0]
+    # classes whose members are reset one by one in the committed table (at least one member has reset=True)
+    itemised = {cls(k) for k, v in gold.items() if v["reset"]}
     for k in sorted(set(tab) | set(gold)):
         if k not in gold:
-            out.append("new member %s (%s; initialised=%s, reset=%s)" % (k, tab[k]["type"], tab[k]["initialised"], tab[k]["reset"]))
+            t = tab[k]
+            bad = (not t["initialised"]) or (cls(k) in itemised and not t["reset"])
+            out.append(("new member %s (%s; initialised=%s, reset=%s)" % (k, t["type"], t["initialised"], t["reset"]), bad))
         elif k not in tab:
-            out.append("member %s disappeared" % k)
+            out.append(("member %s disappeared" % k, True))
         else:
-            for a in ("type", "initialised", "reset"):
+            for a in ("initialised", "reset"):
                 if tab[k][a] != gold[k][a]:
-                    out.append("%s: %s was %r, is %r" % (k, a, gold[k][a], tab[k][a]))
+                    out.append(("%s: %s was %r, is %r" % (k, a, gold[k][a], tab[k][a]), gold[k][a] and not tab[k][a]))
+            if tab[k]["type"] != gold[k]["type"]:
+                out.append(("%s: type was %r, is %r" % (k, gold[k]["type"], tab[k]["type"]), False))
     return out
 
 
